@@ -33,11 +33,29 @@ def _alarm(signum, frame):
     raise RunTimeout()
 
 
+# Environment faults every property shares: the host's time zone. demeter's timestamps are naive UTC throughout, so
+# no property may depend on the zone the process happens to run in; POSIX TZ strings need no zone database.
+HOST_TZS = ["JST-9", "EST5EDT", "CET-1CEST", "NST3:30NDT", "<+1245>-12:45", "PST8PDT", "IST-5:30"]
+ENV_TZ_RATE = 0.05
+
+
+def gen(prop, seed, tier):
+    """prop.generate() plus the environment faults of the run (own sub-stream, so the scenario itself is unchanged)."""
+    sc = prop.generate(seed, tier)
+    rate = getattr(prop, "ENV_TZ_RATE", ENV_TZ_RATE)
+    if isinstance(sc, dict) and rate > 0:
+        r = R.sub(seed, "env")
+        if r.random() < rate:
+            sc.setdefault("opts", {})["host_tz"] = r.choice(HOST_TZS)
+            sc.setdefault("faults", []).append({"kind": "env:host_time_zone_not_utc"})
+    return sc
+
+
 def run_scenario(prop, scenario) -> dict:
     """Execute one scenario; return a picklable, JSON-able summary."""
     from . import bootstrap
 
-    bootstrap.reset_process_state()
+    bootstrap.reset_process_state(scenario)
     sim = prop.execute(scenario)
     viol = [dict(v) for v in sim.violations]
     states = prop.abstract(scenario, sim) if hasattr(prop, "abstract") else sim.states
@@ -64,7 +82,7 @@ def _run_chunk(args):
         rec = {"seed": s}
         try:
             signal.alarm(RUN_TIMEOUT_S)
-            sc = prop.generate(s, tier)
+            sc = gen(prop, s, tier)
             rec.update(run_scenario(prop, sc))
             rec["faults"] = [f["kind"] for f in sc.get("faults", [])]
             rec["interval"] = sc["world"].get("interval", "1min") if isinstance(sc.get("world"), dict) else None
